@@ -141,8 +141,9 @@ def stepK (ι : Int → α) (G : Game α) (k : Kind α) (inp : Inp α) (s : List
     List Int × List Nat :=
   playK ι G k inp (locate s.1 inp.p) s.1 s.2
 
-/-- the states visited: `out[t]` for `t < len`, followed by the final state (which the code leaves
-    in the caller's `init_action_dist` array) -/
+/-- the states visited: `out[t]` for `t < len`, followed by the state after the last period (kept in
+    `time_series`'s private working copy of `init_action_dist` since the code copies its input; not
+    observable from outside, the caller's array is left untouched) -/
 def states (ι : Int → α) (G : Game α) (k : Kind α) : List (Inp α) → List Int × List Nat → List (List Int × List Nat)
   | [], s => [s]
   | inp :: rest, s => s :: states ι G k rest (stepK ι G k inp s)
